@@ -201,7 +201,8 @@ def block_diagonalize(
 
     algorithm = main if hermitian else nonhermitian
 
-    if solve_sylvester is not None and fully_diagonalize:
+    custom_solve_sylvester = solve_sylvester is not None
+    if custom_solve_sylvester and fully_diagonalize:
         raise NotImplementedError(
             "Full diagonalization is not yet supported with custom Sylvester solvers."
         )
@@ -310,6 +311,10 @@ def block_diagonalize(
         if isinstance(fully_diagonalize, (np.ndarray, sympy.MatrixBase, sympy.Expr)):
             fully_diagonalize = {0: fully_diagonalize}
         elif not len(fully_diagonalize):
+            if custom_solve_sylvester:
+                raise NotImplementedError(
+                    "Full diagonalization is not yet supported with custom Sylvester solvers."
+                )
             fully_diagonalize = (0,)
     else:
         if isinstance(fully_diagonalize, (np.ndarray, sympy.MatrixBase, sympy.Expr)):
